@@ -147,7 +147,7 @@ fn sweep<T: Fam>(ctx: &Ctx, ln: u32, level: usize, known: &Known) {
     });
 }
 
-const PAYLOAD_ALPHA: [&str; 15] = ["<", ">", "&", "'", "\"", " ", "\t", "\n", "\r", "\x0C", "]", ";", "#", "a", "é"];
+const PAYLOAD_ALPHA: [&str; 16] = ["<", ">", "&", "'", "\"", " ", "\t", "\n", "\r", "\x0C", "]", ";", "#", "a", "é", "\u{FEFF}"];
 
 /// Every string up to `max` over the payload alphabet in every payload position of `T`.
 fn sweep_payloads<T: Fam>(ctx: &Ctx, ln: u32, max: u32, known: &Known) {
@@ -185,6 +185,50 @@ fn sweep_payloads<T: Fam>(ctx: &Ctx, ln: u32, max: u32, known: &Known) {
     });
 }
 
+/// Size thresholds of the escaping / splitting / trimming code: `filler^p . item . filler^q` in every
+/// payload position, p through every small size, q around the powers of two; three quote levels.
+const LONG_ITEMS: [&str; 12] = [" ", "\t", "\n", "<", ">", "&", "'", "\"", "]]>", "&amp;", "\u{FEFF}", "a b  c"];
+const LONG_FILLERS: [&str; 3] = ["a", "\u{e9}", "0"];
+
+fn sweep_long_payloads<T: Fam>(ctx: &Ctx, ln: u32, known: &Known) {
+    if T::payload("a").is_empty() {
+        return;
+    }
+    let ps: Vec<u32> = (0..=ctx.tier.pick(40, 130)).collect();
+    let qs: Vec<u32> = ctx.tier.pick(vec![0, 1, 2, 7, 15, 16, 17, 31, 32, 33, 40, 63, 64, 65], crate::inputs::size_list(3, 10));
+    let (np, nq, ni, nf) = (ps.len() as u64, qs.len() as u64, LONG_ITEMS.len() as u64, LONG_FILLERS.len() as u64);
+    let cfgs: Vec<SerCfg> = (0..3).map(|level| SerCfg { level, indent: false, expand: false, root: false }).collect();
+    ctx.layer(&format!("long_payloads.{}", T::NAME), ln, np * nq * ni * nf, json!({"shape": "filler^p . item . filler^q", "items": LONG_ITEMS, "fillers": LONG_FILLERS, "p": format!("0..={}", ps.len() - 1), "q": qs, "serializer_configurations": "3 quote levels"}), |i0, acc| {
+        let mut i = i0;
+        let q = qs[(i % nq) as usize];
+        i /= nq;
+        let p = ps[(i % np) as usize];
+        i /= np;
+        let item = LONG_ITEMS[(i % ni) as usize];
+        let f = LONG_FILLERS[(i / ni) as usize];
+        let s = format!("{}{}{}", f.repeat(p as usize), item, f.repeat(q as usize));
+        for (pi, v) in T::payload(&s).iter().enumerate() {
+            for &cfg in &cfgs {
+                acc.evaluations += 1;
+                acc.traces += 1;
+                acc.transitions += 3;
+                match round_trip(v, cfg, known) {
+                    Outcome::Ok(_) => acc.nt_count += 1,
+                    Outcome::Known(id, what) => acc.known(id, || format!("{} {:?}: {}", T::NAME, v, what)),
+                    Outcome::Bad(what) => {
+                        acc.count(&format!("violations.{}", T::NAME), 1);
+                        acc.violation(
+                            (ln, i0),
+                            format!("{} value {:?} with {:?}: {}", T::NAME, v, cfg, what),
+                            json!({"type": T::NAME, "payload": s, "payload_position": pi, "cfg": cfg.index()}),
+                        )
+                    }
+                }
+            }
+        }
+    });
+}
+
 pub fn run(ctx: &Ctx) {
     ctx.set_rule(
         "for each of the 23 types of the family (attributes; optional attributes; child elements of string/number/bool/char; $text \
@@ -195,7 +239,7 @@ pub fn run(ctx: &Ctx) {
          (hostile string pool: markup characters, entity look-alikes, ]]>, quotes, blanks inside, non-ASCII, empty; lists of length \
          0..2/3; options; numeric extremes) x 3 quote levels x indent off/on x expand-empty off/on x root name from the type / \
          with_root; plus, per payload position of each type (attribute, element text, $text, $value, list item in attribute / text, \
-         map value, newtype / struct / $text variant payload, char), every string up to length 3/5 over {< > & ' \" space tab LF CR FF ] ; # a é} \
+         map value, newtype / struct / $text variant payload, char), every string up to length 3/5 over {< > & ' \" space tab LF CR FF ] ; # a é U+FEFF} (and, for size thresholds, filler^p . item . filler^q with p <= 40/130 and q around the powers of two, three quote levels) \
          inside that position's documented domain: to_string must succeed and from_str and from_reader of the output must equal the value. non-trivial = every \
          round trip (all values carry markup-relevant payloads or structure); distinct by construction. states = distinct document \
          skeletons produced",
@@ -217,6 +261,10 @@ pub fn run(ctx: &Ctx) {
         ($($t:ident),*) => { $( sweep_payloads::<$t>(ctx, ln, max, &known); ln += 1; )* };
     }
     crate::for_each_type!(go2);
+    macro_rules! go3 {
+        ($($t:ident),*) => { $( sweep_long_payloads::<$t>(ctx, ln, &known); ln += 1; )* };
+    }
+    crate::for_each_type!(go3);
     let _ = ln;
 }
 
